@@ -23,10 +23,23 @@ Qed.
 Theorem c02_swept_model s o : Inv s -> c02_swept (model_trans s o) = true.
 Proof. intros I. apply c01_implies_swept, c01_ok_model, I. Qed.
 
+Lemma c01_implies_vested t : c01_ok t = true -> c02_vested t = true.
+Proof.
+  unfold c01_ok, c02_vested. apply forallb_impl. intros id _ H.
+  rewrite forallb_forall in H. assert (Hv : In Vesting roles) by (unfold roles; cbn; tauto).
+  specialize (H Vesting Hv). revert H. apply forallb_impl. intros d _ H. cbv zeta in H.
+  apply andb_true_iff in H. destruct H as [_ H].
+  destruct (sweeps t Vesting id d); [reflexivity|exact H].
+Qed.
+
+Theorem c02_vested_model s o : Inv s -> c02_vested (model_trans s o) = true.
+Proof. intros I. apply c01_implies_vested, c01_ok_model, I. Qed.
+
 Theorem c02_all_model s o : Inv s -> tracked s o -> c02_all (model_trans s o) = true.
 Proof.
-  intros I T. unfold c02_all. apply andb_true_iff. split; [apply andb_true_iff; split|].
+  intros I T. unfold c02_all. apply andb_true_iff. split; [apply andb_true_iff; split; [apply andb_true_iff; split|]|].
   - apply c02_ok_model; assumption.
   - apply c02_swept_model, I.
   - apply Chk04.c04_batch_model, I.
+  - apply c02_vested_model, I.
 Qed.
